@@ -289,3 +289,18 @@ Properties/C19.vos Properties/C19.vok Properties/C19.required_vos: Properties/C1
 Mon/Summary.vo Mon/Summary.glob Mon/Summary.v.beautified Mon/Summary.required_vo: Mon/Summary.v Model.vo Mon/C09.vo Mon/C12.vo
 Mon/Summary.vio: Mon/Summary.v Model.vio Mon/C09.vio Mon/C12.vio
 Mon/Summary.vos Mon/Summary.vok Mon/Summary.required_vos: Mon/Summary.v Model.vos Mon/C09.vos Mon/C12.vos
+Proofs/DenoteEnv.vo Proofs/DenoteEnv.glob Proofs/DenoteEnv.v.beautified Proofs/DenoteEnv.required_vo: Proofs/DenoteEnv.v Model.vo Spec/Stack.vo Spec/Bracket.vo Mon/C06.vo Proofs/Reach.vo Proofs/InvReg.vo Proofs/Trace.vo Proofs/InvNames.vo Proofs/DefUse.vo Proofs/Fold.vo Proofs/DenoteLogic.vo
+Proofs/DenoteEnv.vio: Proofs/DenoteEnv.v Model.vio Spec/Stack.vio Spec/Bracket.vio Mon/C06.vio Proofs/Reach.vio Proofs/InvReg.vio Proofs/Trace.vio Proofs/InvNames.vio Proofs/DefUse.vio Proofs/Fold.vio Proofs/DenoteLogic.vio
+Proofs/DenoteEnv.vos Proofs/DenoteEnv.vok Proofs/DenoteEnv.required_vos: Proofs/DenoteEnv.v Model.vos Spec/Stack.vos Spec/Bracket.vos Mon/C06.vos Proofs/Reach.vos Proofs/InvReg.vos Proofs/Trace.vos Proofs/InvNames.vos Proofs/DefUse.vos Proofs/Fold.vos Proofs/DenoteLogic.vos
+Proofs/DenoteSrc.vo Proofs/DenoteSrc.glob Proofs/DenoteSrc.v.beautified Proofs/DenoteSrc.required_vo: Proofs/DenoteSrc.v Model.vo Spec/Stack.vo Mon/C06.vo Proofs/InvNames.vo Proofs/DenoteEnv.vo
+Proofs/DenoteSrc.vio: Proofs/DenoteSrc.v Model.vio Spec/Stack.vio Mon/C06.vio Proofs/InvNames.vio Proofs/DenoteEnv.vio
+Proofs/DenoteSrc.vos Proofs/DenoteSrc.vok Proofs/DenoteSrc.required_vos: Proofs/DenoteSrc.v Model.vos Spec/Stack.vos Mon/C06.vos Proofs/InvNames.vos Proofs/DenoteEnv.vos
+Proofs/DenoteExpr.vo Proofs/DenoteExpr.glob Proofs/DenoteExpr.v.beautified Proofs/DenoteExpr.required_vo: Proofs/DenoteExpr.v Model.vo Spec/Stack.vo Spec/Bracket.vo Mon/C06.vo Proofs/Reach.vo Proofs/InvReg.vo Proofs/Trace.vo Proofs/InvNames.vo Proofs/DefUse.vo Proofs/Fold.vo Proofs/DenoteLogic.vo Proofs/DenoteEnv.vo Proofs/DenoteSrc.vo
+Proofs/DenoteExpr.vio: Proofs/DenoteExpr.v Model.vio Spec/Stack.vio Spec/Bracket.vio Mon/C06.vio Proofs/Reach.vio Proofs/InvReg.vio Proofs/Trace.vio Proofs/InvNames.vio Proofs/DefUse.vio Proofs/Fold.vio Proofs/DenoteLogic.vio Proofs/DenoteEnv.vio Proofs/DenoteSrc.vio
+Proofs/DenoteExpr.vos Proofs/DenoteExpr.vok Proofs/DenoteExpr.required_vos: Proofs/DenoteExpr.v Model.vos Spec/Stack.vos Spec/Bracket.vos Mon/C06.vos Proofs/Reach.vos Proofs/InvReg.vos Proofs/Trace.vos Proofs/InvNames.vos Proofs/DefUse.vos Proofs/Fold.vos Proofs/DenoteLogic.vos Proofs/DenoteEnv.vos Proofs/DenoteSrc.vos
+Proofs/Denote.vo Proofs/Denote.glob Proofs/Denote.v.beautified Proofs/Denote.required_vo: Proofs/Denote.v Model.vo Spec/Stack.vo Spec/Bracket.vo Mon/C06.vo Proofs/Reach.vo Proofs/InvReg.vo Proofs/Trace.vo Proofs/InvNames.vo Proofs/DefUse.vo Proofs/Fold.vo Proofs/InvTree.vo Proofs/DenoteLogic.vo Proofs/DenoteEnv.vo Proofs/DenoteSrc.vo Proofs/DenoteExpr.vo
+Proofs/Denote.vio: Proofs/Denote.v Model.vio Spec/Stack.vio Spec/Bracket.vio Mon/C06.vio Proofs/Reach.vio Proofs/InvReg.vio Proofs/Trace.vio Proofs/InvNames.vio Proofs/DefUse.vio Proofs/Fold.vio Proofs/InvTree.vio Proofs/DenoteLogic.vio Proofs/DenoteEnv.vio Proofs/DenoteSrc.vio Proofs/DenoteExpr.vio
+Proofs/Denote.vos Proofs/Denote.vok Proofs/Denote.required_vos: Proofs/Denote.v Model.vos Spec/Stack.vos Spec/Bracket.vos Mon/C06.vos Proofs/Reach.vos Proofs/InvReg.vos Proofs/Trace.vos Proofs/InvNames.vos Proofs/DefUse.vos Proofs/Fold.vos Proofs/InvTree.vos Proofs/DenoteLogic.vos Proofs/DenoteEnv.vos Proofs/DenoteSrc.vos Proofs/DenoteExpr.vos
+Properties/C06.vo Properties/C06.glob Properties/C06.v.beautified Properties/C06.required_vo: Properties/C06.v Model.vo Spec/Stack.vo Spec/DenoteTests.vo Mon/C06.vo Proofs/DefUse.vo Proofs/DenoteLogic.vo Proofs/DenoteEnv.vo Proofs/DenoteSrc.vo Proofs/Denote.vo
+Properties/C06.vio: Properties/C06.v Model.vio Spec/Stack.vio Spec/DenoteTests.vio Mon/C06.vio Proofs/DefUse.vio Proofs/DenoteLogic.vio Proofs/DenoteEnv.vio Proofs/DenoteSrc.vio Proofs/Denote.vio
+Properties/C06.vos Properties/C06.vok Properties/C06.required_vos: Properties/C06.v Model.vos Spec/Stack.vos Spec/DenoteTests.vos Mon/C06.vos Proofs/DefUse.vos Proofs/DenoteLogic.vos Proofs/DenoteEnv.vos Proofs/DenoteSrc.vos Proofs/Denote.vos
